@@ -1,18 +1,61 @@
 PROPS["C12"] = {
     "title": "sr25519: complete, mutation-rejecting, schnorrkel-exact, canonical encodings",
     "level": "exploration",
-    "technique": "property-based testing (rapid) against an independent schnorrkel reference (math/big + reference Merlin/STROBE/Keccak + RFC 9496 reference)",
-    "level_text": "placeholder",
-    "level_note": "placeholder",
-    "rule": "placeholder",
-    "assumptions": [],
+    "technique": ("property-based testing (rapid) against an independent schnorrkel reference (verifref.Sr*: math/big scalars and affine "
+                  "Edwards arithmetic, RFC 9496 reference encoding, reference Merlin over byte-at-a-time STROBE over textbook Keccak), "
+                  "metamorphic alteration of honest triples, model-based batch histories, decoder strings built per rejection reason, "
+                  "exhaustive lists for the finite special classes; in-package observers for the unexported receiver state"),
+    "level_text": ("Generated-input search plus exhaustive enumeration of finite special classes. Sign: for keys obtained through ExpandUniform, "
+                   "ExpandEd25519, SecretKey.UnmarshalBinary (incl. scalar 0, L-e) and NewSecretKeyFromEd25519Bytes, contexts/messages with "
+                   "STROBE-rate edge lengths and all eight transcript sources (bytes, SHA-256, SHA-512/256, SHA-512, BLAKE2b-256/512, SHAKE128/256), "
+                   "the secret-key bytes, public-key bytes, signature bytes (same 32 entropy bytes, delivered in short reads, reader exhausted "
+                   "after 32) and the verification challenge scalar must equal the reference; the signature must verify with the objects at hand, "
+                   "after re-decoding, on transcripts derived from a shared and from a fresh SigningContext, and in a batch. Up to four alterations per "
+                   "case (context/message bit flip, append, truncate, byte moved across the context/message frame, other source, prehash replayed as "
+                   "bytes, other key, -A, A+[n]B, any signature bit, unmarked, s+L, s+n, R+[n]B, undecodable R, undecodable R with s forged for "
+                   "R = identity) must be decided exactly as the reference decides them (reject, except where the alteration is vacuous, e.g. under the "
+                   "zero key whose signatures are message-independent) and the batch of the honest entry plus all alterations must return exactly "
+                   "the per-entry verdicts. SigBits: all 512 single-bit flips of four fixed honest signatures (one per key kind) are rejected. "
+                   "Batch: histories over {Add (x1..200), add cancelling pair, Reset, Verify, VerifyBatchOnly} with both constructors over a "
+                   "reference-signed pool (honest, altered, zero-value Signature/PublicKey, objects left behind by a failed UnmarshalBinary, "
+                   "cancelling pairs s+d/s-d): single Verify must equal the reference verdict, Verify == (n>0 and AND expected, expected), "
+                   "VerifyBatchOnly == n>0 and AND expected, (false, empty) on the empty batch, entry count tracks the model. Decode: for the six "
+                   "decoders accept <=> reference predicate (length; marker bit and s < L; valid canonical ristretto255 string, cross-checked by two "
+                   "reference decoders; key < L; ENCODE(key*B) == public half; clamped Ed25519 scalar), Marshal(Unmarshal(b)) == b, accepted "
+                   "objects behave like the reference (public key, signing, verification incl. undecodable R => false), a failed decode leaves "
+                   "Signature/PublicKey/KeyPair reset (fields inspected in-package, and through Marshal/Verify) and SecretKey/MiniSecretKey "
+                   "unchanged, inputs are not modified; the list test sweeps every length 0..130 with three fills for every decoder, the "
+                   "neighbourhood of L, 2L and 2^252..2^255 in every scalar slot marked and unmarked, and the in-tree vectors. Does not prove absence."),
+    "level_note": ("Trusted: math/big, stdlib/x-crypto hash functions (prehash side), verifref (its self-test verifies the in-tree go-schnorrkel "
+                   "signature vector, reproduces the in-tree ExpandUniform/ExpandEd25519 key pairs and the from_ed25519_bytes example, and checks the "
+                   "fixed-base fast path against plain double-and-add; the harness re-checks the fast path against the plain reference on ~4% of "
+                   "sign cases), rapid. Rejection of altered triples is decided by the reference, so it holds up to a ~2^-250 accidental validity; a "
+                   "false batch accept needs a ~2^-128 event over the delinearisation scalars. NewSecretKeyFromEd25519Bytes rejecting unclamped "
+                   "scalars is asserted from its comment and in-tree test (schnorrkel itself does not check). Not asserted: behaviour with a nil "
+                   "or failing entropy reader, Equal on zero-value secret keys, the state of a batch entry when the caller mutates objects after Add. "
+                   "DESIGN mutant `digest[31] &= 63 -> 127` is an equivalent mutant (`|= 64` follows); `&= 31` and dropping `|= 64` were used instead. "
+                   "No native-fuzz campaign: the driver has no fuzz job type; the decoder strings are constructed per rejection reason instead."),
+    "rule": ("rapid-generated cases. Sign: key kind (uniform 40% / ed25519 30% / raw scalar incl. 0, L-e, tiny / clamped Ed25519 bytes) x mini or "
+             "nonce fill (zeros, 0xff, uniform) x context and message of edge-heavy length (0..400 / 0..500, STROBE rate 166 and hash block edges) x "
+             "8 sources x entropy (zeros, 0xff, uniform; read chunk 1/7/31/32/unlimited) x 0..4 alterations of 19 kinds. Batch: pool of 1..3 honest + "
+             "0..3 altered/zero/failed-decode entries + optional cancelling pair, 1..10 operations with repetition counts steered to 1, 2, 16, 32, 64, "
+             "93..97, 128, 200, always ending with VerifyBatchOnly and Verify. Decode: decoder x (other length | R string from the RFC 9496 class "
+             "generator or uniform, scalar string from {L+e, s+L, L-prefix words, reduced catalogue, 256-bit catalogue}, marker set/cleared/as drawn | "
+             "ristretto string classes | key pair with own / negated / neighbouring / sign-flipped-s / bit-flipped / other-key / arbitrary public half | "
+             "clamp violations per bit). Non-trivial = non-default expansion or transcript source or at least one alteration (Sign); a batch that "
+             "contained an invalid entry, was reused after Reset, or was empty (Batch); a rejected decoder input or an accepted signature with "
+             "undecodable R (Decode); every list case that is rejected. distinct = FNV-64 of the serialised case"),
+    "assumptions": ["math/big is correct", "SHA-2/BLAKE2b/SHAKE of the Go libraries are correct (used for prehashes on the oracle side)",
+                    "verifref schnorrkel/Merlin/STROBE/Keccak/ristretto255 references are correct (validated on the in-tree schnorrkel, Merlin, "
+                    "STROBE and RFC 9496 vectors and against x/crypto/sha3)",
+                    "Merlin behaves as a random oracle for the constructed inputs (no accidental validity of altered triples)"],
     "units": [{
         "pkg": "primitives/sr25519", "configs": ALL4,
         "tests": {
-            "TestC12Sign": T(1600, 60000, shards={"quick": 8, "thorough": 16}),
+            "TestC12Sign": T(1200, 40000, shards={"quick": 6, "thorough": 16}),
             "TestC12SigBits": LIST(),
-            "TestC12Batch": T(480, 24000, shards={"quick": 6, "thorough": 16}),
-            "TestC12Decode": T(4000, 200000),
+            "TestC12Batch": T(400, 16000, shards={"quick": 4, "thorough": 16}),
+            "TestC12Decode": T(4000, 160000),
             "TestC12DecodeList": LIST(),
         },
     }],
